@@ -69,7 +69,11 @@ func runAuthz(c *h.Ctx, r *h.Report) {
 							for _, o := range originStates {
 								for _, rf := range refererStates {
 									a := authParts{Headers: hd.vals, Query: q.vals, Cookies: ck.vals, Origin: o, Referer: rf, QSpell: len(reqs) / 2 % 3}
-									d := fmt.Sprintf("h=%s q=%s c=%s origin=%q referer=%q spelling=%d", hd.name, q.name, ck.name, o, rf, a.QSpell)
+									// one request in two also carries a field named authorization in its body (a valid token of
+									// either identity, or junk): the body is not a carrier
+									a.BodyAuth = []string{"", pubA, "", pubB, "", "junk"}[len(reqs)/2%6]
+									d := fmt.Sprintf("h=%s q=%s c=%s origin=%q referer=%q spelling=%d body-authorization=%s", hd.name, q.name, ck.name, o, rf, a.QSpell,
+										map[string]string{"": "absent", pubA: "A", pubB: "B", "junk": "junk"}[a.BodyAuth])
 									reqs = append(reqs, req{"pub-tA", a, d}, req{"pub-tB", a, d})
 								}
 							}
@@ -130,7 +134,12 @@ func runAuthz(c *h.Ctx, r *h.Report) {
 					switch q.endpoint {
 					case "pub-tA", "pub-tB":
 						topic := q.endpoint[4:]
-						w := f.doPublish(q.a, "application/x-www-form-urlencoded", "topic="+topic+"&data=d&id=id1", "")
+						body := "topic=" + topic + "&data=d&id=id1"
+						if q.a.BodyAuth != "" {
+							body += "&authorization=" + q.a.BodyAuth
+							r.Count("pub:authorization field in the body")
+						}
+						w := f.doPublish(q.a, "application/x-www-form-urlencoded", body, "")
 						impl = fmt.Sprint(w.Status())
 						model = strings.Fields(ans[i])[0]
 						r.Count("pub:" + impl)
